@@ -250,7 +250,18 @@ def check_gssvx(ev):
     info = ev["info"]
     res = {"bad": []}
     lw = ev.get("work", {}).get("lwork", 0)
-    if lw == -1 or info < 0 or (info > 0 and info != n + 1):
+    if lw == -1 or info < 0 or info > n + 1:
+        return res
+    if 0 < info <= n:
+        # singular return: only the reciprocal pivot growth of the leading info columns is defined (C12)
+        if ev["fn"] == "gssvx" and "rpg" in ev and "L" in ev and "rowind" in ev["L"] and ev["opts"]["Fact"] != 3:
+            try:
+                Fent = [[e[0], e[1], v] for e, v in zip(ev["A0"], ev["A1v"])]
+                F = dense_from_triplets(Fent, n, n, cplx, transpose=tr)
+                DL, DU = dense_LU(ev)
+                check_cond_growth_refine(ev, F, DU, res)
+            except (ZeroDivisionError, IndexError, KeyError):
+                pass
         return res
     fact = ev["opts"]["Fact"]
     ilu = ev["fn"] == "gsisx"
